@@ -9,7 +9,7 @@ git checkout -q -- . ; git clean -fdq -- tests examples src 2>/dev/null
 export CARGO_NET_OFFLINE=true
 first=$(head -1 $S/demo.rs)
 place=$(echo "$first" | sed -n 's#.*place at \([^ ;]*\).*#\1#p')
-runcmd=$(echo "$first" | sed -n 's#.*run: \(.*\)$#\1#p')
+runcmd=$(echo "$first" | sed -n 's#.*run: \(.*\)$#\1#p' | sed 's#  *(.*$##')
 [ -z "$place" ] && { echo "cannot parse placement from: $first"; exit 2; }
 git apply $S/patch.diff || { echo "PATCH FAILS TO APPLY"; exit 2; }
 echo "--- (a) suite with change:"
